@@ -24,8 +24,8 @@ def idle (s : St) : Prop := ∀ (i : Nat) (tk : Task), s.tasks[i]? = some tk →
 def LaunchByDepth (d : DagRef) (depth : Node → Nat) (s : St) : Prop :=
   ∀ tk m rest, s.tasks[1]? = some tk → tk.frames = [.dagLaunch d (m :: rest)] → ∀ b ∈ rest, depth m ≤ depth b
 
-theorem started_of_launched {P : Program} {d : DagRef} {s : St} {L : List Node}
-    (hnodes : ∀ i (h : i < L.length), ∃ tk, s.tasks[2 + i]? = some tk ∧ NodeTaskOK P d s L[i] tk)
+theorem started_of_launched {P : Program} {d : DagRef} {val : Node → Option Val} {s : St} {L : List Node}
+    (hnodes : ∀ i (h : i < L.length), ∃ tk, s.tasks[2 + i]? = some tk ∧ NodeTaskOK P d val s L[i] tk)
     (hidle : idle s) {n : Node} (hn : n ∈ L) : s.proc n = true := by
   obtain ⟨i, hi, rfl⟩ := List.getElem_of_mem hn
   obtain ⟨tk, htk, hok⟩ := hnodes i hi
@@ -47,7 +47,7 @@ theorem C06_plain_next_depth_started (P : Program) (d : DagRef) (hp : PlainP P d
     (hord : LaunchByDepth d depth s)
     (n : Node) (hn : n ∈ d.nodes) (hlow : ∀ m ∈ d.nodes, depth m < depth n → (s.res m).isSome = true) :
     s.proc n = true := by
-  have hinv := pinv_live hp h hpending
+  have hinv := pinv_live (val := fun _ => none) hp h hpending
   rcases hinv.rest with ⟨h1, _⟩ | ⟨L, hlen, ⟨mtk, hm1, hmok⟩, hnodes, hfresh⟩
   · obtain ⟨ctk, hc0, hcok⟩ := hinv.caller
     have hr := hidle _ _ hc0
